@@ -98,4 +98,31 @@ func init() {
 	mut("C02", "a second opener of index.domain", fcgo,
 		"	fc.release = make(chan struct{}, cfg.MaxDescriptors)\n",
 		"	fc.release = make(chan struct{}, cfg.MaxDescriptors)\n	if f, ferr := cfg.FS.Open(indexFile, os.O_RDWR); ferr == nil {\n		_ = f.Close()\n	}\n", "C02.R2.order")
+
+	// ---------------- C04
+	mut("C04", "DeleteTimeRange ignores a positive HasDataFor", cdel,
+		"			if err != nil || hasOverlap {", "			_ = hasOverlap\n			if err != nil {", "C04.R1.guard")
+	mut("C04", "DeleteTimeRange swallows the HasDataFor error", cdel,
+		"			if err != nil || hasOverlap {", "			_ = err\n			if hasOverlap {", "C04.R1.guard")
+	mut("C04", "DeleteTimeRange takes the channel map lock shared", cdel,
+		"	tr telem.TimeRange,\n) error {\n	db.mu.Lock()\n	defer db.mu.Unlock()", "	tr telem.TimeRange,\n) error {\n	db.mu.RLock()\n	defer db.mu.RUnlock()", "C04.R1.guard")
+	mut("C04", "dependants loop skips virtual-index lookalikes", cdel,
+		"			if otherDBKey == ch || otherDB.Channel().Index != ch {", "			if otherDBKey == ch || otherDB.Channel().Index != ch || otherDB.Channel().Virtual {", "C04.R1.guard")
+	mut("C04", "domain Delete drops deleteLock early", delgo,
+		"	db.idx.deleteLock.Lock()\n	defer db.idx.deleteLock.Unlock()\n", "	db.idx.deleteLock.Lock()\n	db.idx.deleteLock.Unlock()\n", "C04.R2.atomic")
+	mut("C04", "domain Delete persists after releasing idx.mu", delgo,
+		"	persist := db.idx.indexPersist.prepare(startDomain)\n	// We choose to keep the mutex locked while persisting to index.\n	return span.Error(persist())",
+		"	persist := db.idx.indexPersist.prepare(startDomain)\n	db.idx.mu.Unlock()\n	err = span.Error(persist())\n	db.idx.mu.Lock()\n	return err", "C04.R2.atomic")
+	mut("C04", "domain Delete forgets to re-validate the end pointer", delgo,
+		"	if db.idx.mu.pointers[endDomain] != end {\n		endDomain, _ = db.idx.unprotectedSearch(end.TimeRange)\n	}\n", "", "C04.R2.atomic")
+	mut("C04", "GarbageCollect rewrites files before closing idle readers", delgo,
+		"	if _, err := db.fc.gcReaders(); err != nil {\n		return span.Error(err)\n	}\n", "", "C04.R3.gc")
+	mut("C04", "garbageCollectFile proceeds although a reader handle is open", delgo,
+		"		if len(rs.open) > 0 {\n			restore()\n			return nil\n		}", "		if len(rs.open) > 0 {\n			restore()\n		}", "C04.R3.gc")
+	mut("C04", "garbageCollectFile ignores the writer pool's refusal", delgo,
+		"	if !canGC {\n		return nil\n	}", "	_ = canGC", "C04.R3.gc")
+	mut("C04", "garbageCollectFile skips rejuvenate", delgo,
+		"	if err = db.fc.rejuvenate(key); err != nil {\n		return err\n	}\n", "", "C04.R3.gc")
+	mut("C04", "unary delete keeps the stale offset cache", "cesium/internal/unary/delete.go",
+		"		return err\n	}\n	db.resolver.invalidate()\n	return nil\n}\n\n// calculateStartOffset", "		return err\n	}\n	return nil\n}\n\n// calculateStartOffset", "C04.R4.cache")
 }
